@@ -2,7 +2,7 @@
 (igris_ato*, atol/atoi), their width wrappers and vt100_left."""
 from c07_common import *
 from c01 import trace_const
-from irlib import keep_all_but_new_helpers
+from irlib import keep_all_but_new_helpers, UNROLL_PASSES, UNROLL_ARGS
 
 IGRIS_CORES = [('igris_i64toa', True), ('igris_u64toa', False)]
 LIBC_CORES = [('itoa', True), ('utoa', False), ('ltoa', True), ('ultoa', False)]
@@ -527,31 +527,32 @@ def bit_slices(rep, mod, fname, callee, want, rule='R-DPRINT'):
 
 
 def bit_chars(rep, mod, fname, nbits, rule='R-DPRINT'):
-    """debug_printbin_uintN: call k prints '1' if bit N-1-k of the parameter is set, else '0'"""
+    """debug_printbin_uintN: call k prints '1' if bit N-1-k of the parameter is set, else '0'.  Decided on the unrolled,
+    straight-line body in the GF(2) domain: '0' + bit is affine (bit 0 of the character is the tested bit, bits 4 and 5 are
+    set), whether the bits are picked by unrolled constant masks, a shifting mask or a shift of the value."""
+    from gf2 import BV, BlockEval, ONE
     f = need(mod, fname)
+    if len(f.blocks) != 1:
+        raise AnalysisBroken('%s is not straight-line code after unrolling (characters chosen by branches?): R-DPRINT '
+                             'evaluates the select form' % fname)
+    ev = BlockEval(f, mod)
+    w = f.params[0]['ty']['bits']
+    ev.env[('a', 0)] = BV.sym(w, 'b')
+    ev.run_block(f.blocks[0])
     calls = [c for c in f.calls() if c.callee == 'debug_putchar']
     rep.inst(rule, fname, 'emits-%d-characters' % nbits, len(calls) == nbits, where(f),
              '%d calls of debug_putchar' % len(calls))
+    one = frozenset([ONE])
     for k, c in enumerate(calls[:nbits]):
-        v = strip(f, c.ops[0])
-        ok = False
-        det = 'character is not selected by a single-bit test'
-        if v.k == 'inst' and f.insts[v.id].op == 'select':
-            s = f.insts[v.id]
-            cond = bool_root(f, s.ops[0])
-            t, e = s.ops[1], s.ops[2]
-            ci = f.insts[s.ops[0].id] if s.ops[0].k == 'inst' else None
-            if ci is not None and ci.op == 'icmp' and ci.pred in ('ne', 'eq') and ci.ops[1].k == 'ci' and ci.ops[1].ival == 0:
-                a = strip(f, ci.ops[0])
-                ai = f.insts[a.id] if a.k == 'inst' else None
-                if ai is not None and ai.op == 'and':
-                    m = [o.ival for o in ai.ops if o.k == 'ci']
-                    x = [strip(f, o) for o in ai.ops if o.k != 'ci']
-                    set_ch, clr_ch = (t, e) if ci.pred == 'ne' else (e, t)
-                    ok = m == [1 << (nbits - 1 - k)] and x and x[0].k == 'arg' and x[0].argno == 0 and \
-                        set_ch.k == 'ci' and set_ch.ival == 49 and clr_ch.k == 'ci' and clr_ch.ival == 48
-                    det = 'call %d tests mask %s and prints %s/%s' % (k, m, set_ch, clr_ch)
-        rep.inst(rule, fname, 'character %d shows bit %d' % (k, nbits - 1 - k), ok, c.where(), None if ok else det)
+        a = ev.val(c.ops[0])
+        if not isinstance(a, BV):
+            raise AnalysisBroken('%s: the character of call %d is not a bit-vector value' % (fname, k))
+        bits = list(a.bits)[:8] + [frozenset()] * max(0, 8 - len(a.bits))
+        want = [frozenset(['b%d' % (nbits - 1 - k)]), frozenset(), frozenset(), frozenset(), one, one, frozenset(), frozenset()]
+        ok = bits == want and all(not x for x in list(a.bits)[8:])
+        rep.inst(rule, fname, 'character %d shows bit %d' % (k, nbits - 1 - k), ok, c.where(),
+                 None if ok else "call %d prints the character with bits %s; '0' + bit %d of the value is required"
+                 % (k, ['^'.join(sorted(x)) or '0' for x in bits], nbits - 1 - k))
 
 
 def byte_lanes(rep, mod, fname, callee, nbytes, rule='R-DPRINT'):
@@ -763,8 +764,13 @@ def run(rep, repo, tier):
     dprint_signed(rep, modd)
     dprint_hex4(rep, modd)
     bit_slices(rep, modd, 'debug_printhex_uint8', 'debug_printhex_uint4', [(4, 4), (0, 4)])
-    bit_chars(rep, modd, 'debug_printbin_uint4', 4)
-    bit_chars(rep, modd, 'debug_printbin_uint8', 8)
+    moddu = compile_ir(repo + '/igris/dprint/dprint_func_impl.c', repo, passes=UNROLL_PASSES, opt_args=UNROLL_ARGS,
+                       out_name='dprint_func_impl_unrolled')
+    for fname_, nb_ in (('debug_printbin_uint4', 4), ('debug_printbin_uint8', 8)):
+        try:
+            bit_chars(rep, moddu, fname_, nb_)
+        except AnalysisBroken as e:
+            rep.defer_broken(e)
     for n, nm in ((2, '16'), (4, '32'), (8, '64')):
         byte_lanes(rep, modd, 'debug_printhex_uint' + nm, 'debug_printhex_uint8', n)
         byte_lanes(rep, modd, 'debug_printbin_uint' + nm, 'debug_printbin_uint8', n)
